@@ -51,6 +51,9 @@ func (area) Run(c *core.Ctx) error {
 	leafTimeout = time.Duration(argInt(c, "leaf_timeout_ms", 1500)) * time.Millisecond
 	caseTimeout := time.Duration(argInt(c, "case_timeout_s", 30)) * time.Second
 	maxFails := argInt(c, "max_fails", 25)
+	maxHangs := argInt(c, "max_hangs", 3)
+	hangCases := 0
+	leafHang.report = func(desc string) { c.Fail("leaf-blocks-until-deadline", desc) }
 	for i := 0; i < c.N; i++ {
 		if !c.Want(i) {
 			continue
@@ -74,7 +77,14 @@ func (area) Run(c *core.Ctx) error {
 			c.Flush()
 			return nil
 		}
+		if n, _ := takeLeafHang(); n > 0 {
+			hangCases++
+		}
 		c.Flush()
+		if hangCases >= maxHangs {
+			c.Note(fmt.Sprintf("stopped after %d cases with a leaf that blocks until its deadline", hangCases))
+			return nil
+		}
 		if c.Fails >= maxFails {
 			c.Note(fmt.Sprintf("stopped after %d oracle failures", c.Fails))
 			return nil
@@ -107,6 +117,18 @@ func runCase(c *core.Ctx, i int) {
 	}
 	if i%37 == 5 {
 		planShapeCase(c, rng)
+		return
+	}
+	if i%29 == 9 {
+		collectCase(c, rng)
+		return
+	}
+	if i%31 == 17 {
+		tmCase(c, rng)
+		return
+	}
+	if i%43 == 21 {
+		interleaveCase(c, rng)
 		return
 	}
 	switch x := rng.Intn(100); {
@@ -1121,6 +1143,17 @@ func routeCase(c *core.Ctx, rng *rand.Rand) {
 			}
 		}
 		it := batch.NewShardGroupIterator(int32(k))
+		// the batch as the shard sort left it: the family iterator permutes rows only inside a shard group
+		type preRow struct {
+			id int
+			ts int64
+		}
+		var pre []preRow
+		for _, br := range batch.Rows() {
+			m := br.Metric()
+			pre = append(pre, preRow{idOf(m.Timestamp()), m.Timestamp()})
+		}
+		calc := timeutil.Interval(intervalMs).Calculator()
 		var groups []string
 		total := 0
 		byHash := map[uint64]int{}
@@ -1128,8 +1161,20 @@ func routeCase(c *core.Ctx, rng *rand.Rand) {
 		for it.HasRowsForNextShard() {
 			shard, fam := it.FamilyRowsForNextShard(timeutil.Interval(intervalMs))
 			var ids []int
+			var famOut []string
 			for fam.HasNextFamily() {
 				familyTime, frows := fam.NextFamily()
+				var fids []int
+				for i := range frows {
+					fm := frows[i].Metric()
+					fids = append(fids, idOf(fm.Timestamp()))
+				}
+				sort.Ints(fids)
+				var fs []string
+				for _, id := range fids {
+					fs = append(fs, fmt.Sprint(id))
+				}
+				famOut = append(famOut, fmt.Sprintf("%d:%s", (familyTime-familyStart)/hour, strings.Join(fs, ",")))
 				for i := range frows {
 					m := frows[i].Metric()
 					ts := m.Timestamp()
@@ -1143,6 +1188,13 @@ func routeCase(c *core.Ctx, rng *rand.Rand) {
 					}
 					byHash[m.KvsHash()] = shard
 				}
+			}
+			if total+len(ids) <= len(pre) {
+				ftoks := []string{"families"}
+				for _, r := range pre[total : total+len(ids)] {
+					ftoks = append(ftoks, fmt.Sprintf("%d:%d:%d", r.id, r.ts-familyStart, (calc.CalcFamilyTime(r.ts)-familyStart)/hour))
+				}
+				c.Op(strings.Join(ftoks, " "), strings.Join(famOut, " "))
 			}
 			sort.Ints(ids)
 			for i := 1; i < len(ids); i++ {
